@@ -116,6 +116,20 @@ fn deliver_checked(w: &mut World, led: &mut Ledger, to: usize, m: &Sent, ctx: &'
     if ahead > 1000 {
         w.out.cov.bump(&format!("gap:{ahead}"));
     }
+    // a damaged copy arriving first must be refused and must not cost the receiver the key
+    if ok && w.rng.chance(1, 8) {
+        if let Ok(mut b) = m.msg.to_bytes() {
+            let n = b.len();
+            b[n - 1 - w.rng.below(8.min(n))] ^= 1 << w.rng.below(8);
+            if let Ok(bad) = MlsMessage::from_bytes(&b) {
+                w.out.cov.bump("damaged_copy_first");
+                if let Ok(ev) = w.deliver(to, &bad) {
+                    let _ = ev;
+                    w.violate("C05|damaged_ciphertext_accepted", format!("member {to}, sender {}, generation {}", m.sender, m.generation));
+                }
+            }
+        }
+    }
     match w.deliver(to, &m.msg) {
         Ok(ev) => {
             let good = match (&ev, m.handshake) {
